@@ -214,37 +214,7 @@ def controlled_case(args) -> dict:
     return out
 
 
-def run_with_watchdog(fn, tasks, per_task_s: int, ctx):
-    """pool.map with a per-task time-out: a hung worker is a finding, the
-    pool is rebuilt for the remaining tasks."""
-    results = []
-    todo = list(tasks)
-    while todo:
-        ex = core.pool()
-        futs = [(t, ex.submit(fn, t)) for t in todo]
-        todo = []
-        hung = False
-        for t, f in futs:
-            if hung:
-                if f.done():
-                    results.append((t, f.result()))
-                else:
-                    todo.append(t)
-                continue
-            try:
-                results.append((t, f.result(timeout=per_task_s)))
-            except cf.TimeoutError:
-                hung = True
-                results.append((t, {"args": list(t), "bad": [
-                    ({"symptom": "hang", "iface": "any"},
-                     f"{t}: the worker did not finish within {per_task_s} s "
-                     f"(watchdog could not interrupt it)", str(t))
-                ], "cases": 0, "required": 0, "harness": None}))
-        if hung:
-            for p in list(getattr(ex, "_processes", {}).values()):
-                p.kill()
-        ex.shutdown(wait=not hung, cancel_futures=True)
-    return results
+from vf.core import run_with_watchdog  # noqa: E402
 
 
 def run(ctx):
@@ -307,7 +277,7 @@ def run(ctx):
     if ctx.tier == "thorough":
         otasks += [(f, w, "half") for f in fmts for w in ("first", "last")]
     tot = req = 0
-    for t, r in run_with_watchdog(os_case, otasks, 900, ctx):
+    for t, r in run_with_watchdog(os_case, otasks, 300, ctx):
         if r["harness"]:
             ctx.harness_error(f"{t}: {r['harness']}")
             continue
